@@ -14,7 +14,7 @@
 From Coq Require Import ZArith NArith List Bool Arith QArith Qcanon Permutation.
 From PL.C09 Require Import BoolGraph Strat ClarkBase GenClark ClarkProofs CyclesModel.
 From PL.C10 Require ModelCircuit ModelOracle.
-From PL.C01pipe Require Import Sums PipeModel Bridge PipeProofs AdInv.
+From PL.C01pipe Require Import Sums PipeModel Bridge PipeProofs AdInv Cone.
 Import ListNotations.
 Local Open Scope Qc_scope.
 
@@ -48,6 +48,20 @@ Theorem C01_pipeline_correct_all : forall tc use_memo P qs e M D kqs kes,
     pipeline_all tc use_memo P qs e = Some (map (fun q => world_prob P M q e) qs).
 Proof. exact pipeline_all_correct. Qed.
 Print Assumptions C01_pipeline_correct_all.
+
+(* REAL SOURCE LAYOUT.  The LogicFormula the engine produces also contains the extra atom of every AD as an
+   atom node that nothing refers to (so wf_src's "every atom is a fact or a member" fails for it).  For such
+   formulas: let SK be any set of node keys that contains the query / evidence keys, is closed under children
+   and contains no atom other than facts and members (cone_ok; checkable: cone_okb).  Then the same
+   conclusion holds -- the model on a cone only reads the atoms of the cone (C01_pipe_cone_local) and
+   _break_cycles only follows children. *)
+Theorem C01_pipeline_correct_real_layout : forall tc use_memo P qs e M SK D kqs kes,
+    wf_src_x P -> cone_ok P (qs ++ e) SK ->
+    stratified (wp_graph P) -> (forall a, is_model (wp_graph P) a (M a)) ->
+    break_cycles_m tc use_memo (wp_graph P) (ai_of P) qs e = Some (D, kqs, kes) ->
+    pipeline_all tc use_memo P qs e = Some (map (fun q => world_prob P M q e) qs).
+Proof. exact pipeline_all_correct_cone. Qed.
+Print Assumptions C01_pipeline_correct_real_layout.
 
 (* the two counts separately: WMC(CNF /\ e /\ q) and WMC(CNF /\ e) are the world sums *)
 Theorem C01_pipeline_counts : forall tc use_memo P q e M D kq kes,
@@ -171,6 +185,20 @@ Theorem C01_pipe_trivial_constraints : forall P D ws cons names,
     = clark_cnf P D.
 Proof. exact clark_cnf_trivial. Qed.
 Print Assumptions C01_pipe_trivial_constraints.
+
+(* locality: on a set of keys closed under children, the model of a stratified graph only reads the atoms
+   sitting at those keys (the statement C08 calls `relevant`, here for and-or graphs) *)
+Theorem C01_pipe_cone_local : forall F SK,
+    (forall k nd c, In k SK -> node_at F k = Some nd -> In c (children nd) -> c = 0%Z \/ In (key_of c) SK) ->
+    forall a a' s s', stratified F -> is_model F a s -> is_model F a' s' ->
+    (forall k id, In k SK -> node_at F k = Some (NAtom id) -> a id = a' id) ->
+    forall k, In k SK -> s k = s' k.
+Proof. exact cone_local. Qed.
+Print Assumptions C01_pipe_cone_local.
+
+Theorem C01_pipe_cone_checker_sound : forall P roots SK, cone_okb P roots SK = true -> cone_ok P roots SK.
+Proof. exact cone_okb_sound. Qed.
+Print Assumptions C01_pipe_cone_checker_sound.
 
 (* the model function exists for stratified programs (and is unique: C09_stratified_model_unique) *)
 Theorem C01_pipe_model_exists : forall F, stratified F -> exists M, forall a, is_model F a (M a).
@@ -352,3 +380,30 @@ Example C01_example2_all :
       (map (fun q => world_prob ex2P (model_of ex2F) q [Some (-12)%Z]) [Some 8%Z; Some 10%Z; Some 11%Z])
   = [Some (9#11)%Q; Some (10#11)%Q; Some (78#275)%Q].
 Proof. split; vm_compute; repeat split; reflexivity. Qed.
+
+(* the first program in the engine's layout: the extra atom of the AD (identifier 10) is node 8 of the
+   SOURCE formula, referenced by nothing.  wf_srcb rejects it, the cone {1..7} of the roots is accepted,
+   and both sides still give 15/22 *)
+Definition exF' : graph := exF ++ [NAtom 10].
+Definition exP' : wprog :=
+  {| wp_graph := exF'; wp_wt := exwt; wp_facts := [3%N]; wp_groups := [([1%N; 2%N], 10%N)] |}.
+
+Example C01_example_real_layout :
+  wf_srcb exP' = false /\
+  wf_src_x exP' /\ cone_ok exP' ([exq] ++ exe) [1; 2; 3; 4; 5; 6; 7]%nat /\ stratified exF' /\
+  (forall a, is_model exF' a (model_of exF' a)) /\
+  (exists rs, pipeline_all false true exP' [exq] exe = Some rs /\
+              map (fun r => match r with POk p => Some (this p) | PInconsistent => None end) rs = [Some (15#22)%Q]) /\
+  (exists p, world_prob exP' (model_of exF') exq exe = POk p /\ this p = (15#22)%Q).
+Proof.
+  split. { vm_compute. reflexivity. }
+  split. { constructor.
+           - apply nodupb_sound. vm_compute. reflexivity.
+           - apply nodupb_sound. vm_compute. reflexivity.
+           - intros g [<-|[]]. vm_compute. intuition discriminate. }
+  split. { apply cone_okb_sound. vm_compute. reflexivity. }
+  split. { apply (stratb_sound exF' [0; 0; 0; 0; 0; 0; 0; 1; 0]%nat). vm_compute. reflexivity. }
+  split. { apply model_by_enumeration. vm_compute. reflexivity. }
+  split. { eexists. split; vm_compute; reflexivity. }
+  eexists. split; vm_compute; reflexivity.
+Qed.
